@@ -247,6 +247,8 @@ func (fv *FuncVC) callWithContractEnv(x *ssa.Call, cc *FuncContract, extra map[s
 	}
 	for k, r := range cc.Requires {
 		if r.Free {
+			// an input assumption of the callee is taken as given here too (not checked at the call): listed
+			fv.assumptions[fmt.Sprintf("assumption of callee %s taken as given at its call sites: %s", calleeName, exprString(r.E))] = true
 			continue
 		}
 		goal := envPre.withPol(1).trBool(r.E)
